@@ -275,6 +275,12 @@ def run(ctx, scratch):
             if i in model and not mat_close(out, model[i]):
                 ctx.violation('Convolution.forward', 'implementation differs from the exact-Q model', case=args,
                               expected=model[i], observed=out, kind='model', **fields)
+            o = r['ok']
+            if 'second_layer_fresh' in o and not mat_close(o['second_layer_same_object'], o['second_layer_fresh'], 1e-12):
+                ctx.violation('Convolution.forward', 'a second layer applied to the adjacency object the first layer has just used does '
+                              'not compute activation(N(A) X W + b) any more (it differs from the same layer on a fresh copy)',
+                              case=args, expected=o['second_layer_fresh'], observed=o['second_layer_same_object'],
+                              kind='layer_sequence', adjacency_unchanged=o.get('adjacency_unchanged'), **fields)
             if i % 150 == 0:
                 ctx.sample(dict(kind='forward', args=args, impl=out, spec=exp, model=model.get(i)))
             # equivariance on the implementation: renumber the nodes, rows of the output are permuted
